@@ -249,3 +249,69 @@ theorem sieve_nonlast {e : Erat} {P : ℕ → Prop} (h : EInv e P)
           exact ⟨gsS', gsM', n3, n4, n5⟩ }
 
 end Pc.PsCore
+
+namespace Pc.PsCore
+open Pc.PsWheelSpec
+open Pc.Sieve (Bytes bitAt)
+
+/-- **the last segment** (`Erat::sieveLastSegment`: `resize`, pre-sieve, cross-off, `unsetLarger` on the last byte) -/
+theorem sieve_last {e : Erat} {P : ℕ → Prop} (h : EInv e P)
+    (hP : ∀ q, Nat.Prime q → 163 < q → q * q ≤ e.segmentHigh → P q) (hl : e.stop ≤ e.segmentHigh) :
+    SegOk e.start e.stop e.segmentLow (e.sieveSegment (preTabsDecoded ())).sieve ∧
+    (e.sieveSegment (preTabsDecoded ())).start = e.start ∧ (e.sieveSegment (preTabsDecoded ())).stop = e.stop ∧
+    (e.sieveSegment (preTabsDecoded ())).segmentLow = e.stop ∧
+    (e.sieveSegment (preTabsDecoded ())).sieve.size = (e.stop - byteRemainder e.stop - e.segmentLow) / 30 + 1 := by
+  have hfit := h.last_fits hl
+  have hHeq : e.segmentHigh = e.stop := by have := h.high_le; omega
+  set n' := (e.stop - byteRemainder e.stop - e.segmentLow) / 30 + 1 with hn'
+  set s0 := e.sieve.extract 0 n' with hs0
+  have hs0sz : s0.size = n' := by rw [hs0, Array.size_extract]; omega
+  have hcore := sieve_core h hP s0 (by rw [hs0sz]; exact hfit)
+  unfold Erat.sieveSegment
+  rw [if_neg (by omega)]
+  unfold Erat.sieveLastSegment
+  dsimp only
+  rw [← hn', ← hs0]
+  set e2 := (({ e with sieve := s0 } : Erat).preSieve (preTabsDecoded ())).crossOff with he2
+  have hsz : e2.sieve.size = n' := by rw [hcore.size_eq, hs0sz]
+  have hr7 := byteRemainder_ge e.stop
+  have hr36 := byteRemainder_le e.stop
+  have hstop2 : e2.stop = e.stop := by rw [he2]; simp
+  have hstart2 : e2.start = e.start := by rw [he2]; simp
+  refine ⟨⟨?_, ?_⟩, hstart2, hstop2, hstop2, by rw [Array.size_modify]; exact hsz⟩
+  · intro k
+    exact getD_modify_and_lt _ _ _ hcore.bytes k
+  · intro p
+    rw [bitAt_unsetLarger _ _ _ p hr7 hr36, Array.size_modify, hsz, Bool.and_eq_true]
+    simp only [Bool.or_eq_true, decide_eq_true_eq]
+    constructor
+    · rintro ⟨hp, hmask⟩
+      obtain ⟨h1, h2, h3⟩ := hcore.only p hp
+      rw [hs0sz] at h1
+      have hle : numOf e.segmentLow p ≤ e.stop := (last_byte e.segmentLow e.stop p h.low_dvd h.low_lt h1).mpr hmask
+      exact ⟨h1, h3 (by omega), h2, hle⟩
+    · rintro ⟨h1, h2, h3, h4⟩
+      exact ⟨hcore.all p (by rw [hs0sz]; exact h1) h2 h3, (last_byte e.segmentLow e.stop p h.low_dvd h.low_lt h1).mp h4⟩
+
+/-- **`segment_sieve_correct`, object level**: one `Erat::sieveSegment()` of a run in which every prime `q ∈ (163, √segmentHigh_]` has
+    been added: the array holds exactly the primes of `[start, stop]` that belong to the segment; and, unless it was the last
+    segment, the object invariant holds again for the next segment. -/
+theorem einv_sieve {e : Erat} {P : ℕ → Prop} (h : EInv e P)
+    (hP : ∀ q, Nat.Prime q → 163 < q → q * q ≤ e.segmentHigh → P q) :
+    SegOk e.start e.stop e.segmentLow (e.sieveSegment (preTabsDecoded ())).sieve ∧
+    (e.sieveSegment (preTabsDecoded ())).start = e.start ∧ (e.sieveSegment (preTabsDecoded ())).stop = e.stop ∧
+    (e.segmentHigh < e.stop →
+      EInv (e.sieveSegment (preTabsDecoded ())) P ∧
+      (e.sieveSegment (preTabsDecoded ())).segmentLow = e.segmentLow + 30 * e.sieve.size ∧
+      (e.sieveSegment (preTabsDecoded ())).sieve.size = e.sieve.size ∧
+      (e.sieveSegment (preTabsDecoded ())).segmentHigh = min (e.segmentHigh + 30 * e.sieve.size) e.stop) ∧
+    (e.stop ≤ e.segmentHigh →
+      (e.sieveSegment (preTabsDecoded ())).segmentLow = e.stop ∧
+      (e.sieveSegment (preTabsDecoded ())).sieve.size = (e.stop - byteRemainder e.stop - e.segmentLow) / 30 + 1) := by
+  by_cases hnl : e.segmentHigh < e.stop
+  · obtain ⟨a1, a2, a3, a4, a5, a6, a7⟩ := sieve_nonlast h hP hnl
+    exact ⟨a1, a2, a3, fun _ => ⟨a4, a5, a6, a7⟩, fun hl => by omega⟩
+  · obtain ⟨a1, a2, a3, a4, a5⟩ := sieve_last h hP (by omega)
+    exact ⟨a1, a2, a3, fun hh => absurd hh hnl, fun _ => ⟨a4, a5⟩⟩
+
+end Pc.PsCore
